@@ -309,8 +309,12 @@ PROPS["C02"] = dict(
         "c02_crash_mid_operation": "the in-flight batch is in the journal completely or not at all (c03_torn_tail); both cases recover to the state of a prefix of the committed operations",
     },
     engines=[dict(bin="dbeng", args=["--mode", "c02"], cases_quick=480, cases_thorough=10000, profiles=["release"]),
-             dict(bin="journal", args=["--mode", "c03"], cases_quick=24, cases_thorough=96, profiles=["release"])],
-    rule="dbeng: crash images (directory copies with 0 worker threads = process-crash image) at random points of programs with flushes, journal rotation and eviction, "
+             dict(bin="journal", args=["--mode", "c03"], cases_quick=24, cases_thorough=96, profiles=["release"]),
+             dict(bin="fault", args=["--mode", "c02"], cases_quick=48, cases_thorough=600, profiles=["release"])],
+    rule="fault --mode c02: journal workloads on a plain, single-writer-transactional or optimistic-transactional database (inserts, removes, clears, batches and "
+         "write transactions with every durability level or the default, persists, journal rotations; manual and automatic journal persist) killed before a "
+         "system call; the directory as the OS has it is reopened and must hold a prefix containing every acknowledged operation up to the last one whose journal "
+         "bytes had to be handed to the OS. dbeng: crash images (directory copies with 0 worker threads = process-crash image) at random points of programs with flushes, journal rotation and eviction, "
          "reopened and compared with 'every acknowledged operation'; journal: every byte cut of the last batch x zero paddings, real reader + sampled real reopen + append + reopen",
     trusted_base=DB_TB,
     assumptions=["default journal persist mode (Buffer per operation)", "crashes inside lsm-tree's flush/compaction file protocol are trusted"],
